@@ -456,6 +456,15 @@ func c18exec(seq []tcall, impl c18impl, seqNo int, res *core.CaseResult, verbose
 			}
 		}
 	}
+	// a finished transaction is finished: a call that arrives after its Commit does not reach the store (it would do so
+	// outside any transaction, in the middle of whichever transaction holds the store at that moment)
+	if p := core.Recover(func() {
+		txn.Set("z", recordOf("late"), blob.NewBytes([]byte("late")))
+		txn.Set("x", nil, nil)
+		_, _ = txn.Commit(context.Background())
+	}); p == "" {
+		res.Count("late_calls_after_commit", 1)
+	}
 	// the store must remain usable and hold what the model holds
 	var finalRes []keyvalue.OpResult
 	var finalErr error
